@@ -1,6 +1,7 @@
 CONSTANTS
   N = 1
   MaxTasks = 3
+  G = 1
   Dev = {}
   KeepHist = FALSE
 INIT GInit
